@@ -356,7 +356,10 @@ class FnTranslator:
         if isinstance(f, ast.Name) and f.id == 'yield_append__' and not n.keywords:
             tys = self.yield_types
             e = n.args[0]
-            elts = e.elts if isinstance(e, ast.Tuple) else [e]
+            if getattr(self, 'yield_record', None):
+                elts = self.record_fields(e, self.yield_record)      # [loop ties C06] a namedtuple, read on declared fields
+            else:
+                elts = e.elts if isinstance(e, ast.Tuple) else [e]
             if len(elts) != len(tys):
                 raise Refuse('%s: a %d-tuple is yielded where the spec declares %d components' % (self.rel, len(elts), len(tys)))
             vals = [self.coerce(self.expr(x, env), t) for x, t in zip(elts, tys)]
@@ -518,6 +521,28 @@ class FnTranslator:
                 return ('(%s%s %s)' % (sp['coq'], '', ' '.join(out)), sp['ret'])
             raise Refuse('%s: call to unsupported function %s' % (self.rel, f.id))
         raise Refuse('%s: unsupported call' % self.rel)
+
+    def record_fields(self, e, rec):
+        """[loop ties C06] `yield_record=dict(base='row', fields=['start', 'end'])`: the iteration yields namedtuples made
+        from the record `base`: `yield base` or `yield base._replace(f1=v1, ...)` with every replaced field among the
+        declared ones.  The yielded value is read on the declared fields (in that order): a replaced field is its new
+        value, any other declared field is `base.f` (which must be a parameter); every field NOT declared is, by the
+        meaning of namedtuple._replace, that of `base` itself.  Anything else (another base, positional arguments,
+        `**mapping`, a replaced field that is not declared) is refused."""
+        base, fields = rec['base'], list(rec['fields'])
+        def attr(f):
+            return ast.Attribute(value=ast.Name(id=base, ctx=ast.Load()), attr=f, ctx=ast.Load())
+        if isinstance(e, ast.Name) and e.id == base:
+            return [attr(f) for f in fields]
+        if isinstance(e, ast.Call) and isinstance(e.func, ast.Attribute) and e.func.attr == '_replace' \
+                and isinstance(e.func.value, ast.Name) and e.func.value.id == base and not e.args:
+            kw = {}
+            for k in e.keywords:
+                if k.arg is None or k.arg not in fields or k.arg in kw:
+                    raise Refuse('%s: %s._replace with a field outside the declared record fields %s' % (self.rel, base, fields))
+                kw[k.arg] = k.value
+            return [kw.get(f, attr(f)) for f in fields]
+        raise Refuse('%s: the yielded value %s is not %s / %s._replace(...)' % (self.rel, ast.unparse(e), base, base))
 
     def clip(self, v, lo, hi):
         x, l, ty = self.num2(v, lo)
@@ -1020,6 +1045,15 @@ class FnTranslator:
         for k, t, term in sp.get('init', []):
             env[k] = (term, t)
         self.guards = []
+        self.yield_record = sp.get('yield_record')
+        if sp.get('yields') and not sp.get('loop'):
+            # [loop ties C06] `yields` on a fragment: the values the fragment's statements yield, in order, are the
+            # variable `yield__` (type Y, a list of tuples of the declared types), to be named in `returns`
+            self.yield_types = list(sp['yields'])
+            COQTY['Y'] = 'list (%s)' % ' * '.join(COQTY[t] for t in self.yield_types)
+            env['yield__'] = ('(@nil (%s))' % ' * '.join(COQTY[t] for t in self.yield_types), 'Y')
+        else:
+            self.yield_types = None
         stmts = self.desugar(fnode.body)
         frag = sp.get('fragment')
         if frag:
@@ -1028,7 +1062,6 @@ class FnTranslator:
                 raise Refuse('%s.%s: fragment %r .. %r not found' % (self.rel, sp['name'], frag['first'], frag['last']))
         self.loop_carried = None
         self.loop_has_break = False
-        self.yield_types = None
         loop = sp.get('loop')
         if loop:
             # ONE ITERATION of a for/while loop as a function of the loop-carried variables (declared in `carried` as
